@@ -1,6 +1,6 @@
 SPECIFICATION Spec
 CONSTANTS
-  ManyLimit = 100000
-  Stride = 1
+  ManyLimit = 30
+  Stride = 2
 INVARIANTS Emit
 CHECK_DEADLOCK FALSE
